@@ -260,6 +260,27 @@ static void step(prog_t *t) {
         GeoPolygon gp = {{5, pv}, (int)vf_below(r, 2), &hole};
         int64_t sz = 0;
         uint32_t mode = (uint32_t)vf_below(r, 4);
+        if (vf_below(r, 4) == 0) {
+            /* finite but out-of-range coordinates (a latitude beyond a pole, a longitude a turn away, a flag or resolution
+             * out of range): the argument-checking and clamping paths of the size functions run under the write-trap and the
+             * race detector too; only the size functions are called for these */
+            LatLng save = pv[2];
+            int badres = res;
+            uint32_t badmode = mode;
+            switch (vf_below(r, 5)) {
+                case 0: pv[2].lat = (c.lat >= 0 ? 1 : -1) * (M_PI_2 + 0.01 + 0.3 * vf_unit(r)); break;
+                case 1: pv[2].lng += (vf_below(r, 2) ? 1 : -1) * 2 * M_PI; break;
+                case 2: pv[2].lat = 1e6 * (vf_unit(r) - 0.5); break;
+                case 3: badres = vf_below(r, 2) ? -1 : 16; break;
+                default: badmode = 4 + (uint32_t)vf_below(r, 9);
+            }
+            int64_t z = 0;
+            API(A_polygonToCellsExperimental, e = maxPolygonToCellsSizeExperimental(&gp, badres, badmode, &z));
+            mixh(t, &e, 4);
+            API(A_polygonToCells, e = maxPolygonToCellsSize(&gp, badres, 0, &z));
+            mixh(t, &e, 4);
+            pv[2] = save;
+        }
         API(A_polygonToCellsExperimental, e = maxPolygonToCellsSizeExperimental(&gp, res, mode, &sz));
         if (!e && sz < 20000) {
             H3Index *o = calloc((size_t)sz + 1, 8);
